@@ -591,17 +591,20 @@ func (r *runner) locksCleanup() {
 		api lockAPI
 		tok map[int]map[string]*semap.Weighted
 	}{{ls.ref, ls.tokR}, {ls.wide, ls.tokW}}
+	// never on the harness goroutine: a release that panics inside the locker can leave its internal mutex locked,
+	// and the next call would then block for ever
 	for _, side := range sides {
 		for _, h := range ls.holds {
-			h := h
+			h, side := h, side
 			k, ok := parseKey(h.key + ":0")
 			if !ok {
 				continue
 			}
-			func() {
-				defer func() { _ = recover() }()
-				side.api.release([]key{k}, h.write, h.multi, ls.tok(side.tok, h.t))
-			}()
+			t := ls.s.Go("cleanup", func() string { side.api.release([]key{k}, h.write, h.multi, ls.tok(side.tok, h.t)); return "ret" })
+			_ = ls.s.Settle()
+			if t.State() != "ret:ret" {
+				return
+			}
 		}
 	}
 }
